@@ -178,6 +178,10 @@ func (c02) Run(c *core.Ctx) {
 		// plus every alternative for the first 3 instances of each (site, size) class.
 		seenClass := map[[2]uintptr]int{}
 		for i := 0; i < n0; i++ {
+			if c.Quick() && name == "override-debug" {
+				// quick: the same files as "override" under one more profile; its single-point deviations are left to thorough
+				break
+			}
 			if i&63 == 0 && c.Expired() {
 				break
 			}
